@@ -3390,7 +3390,7 @@ class UTPM(Ring, RawAlgorithmsMixIn):
 
         for d in range(D):
             for p in range(P):
-                abar.data[d,p, ...] += numpy.fft.ifft(bbar.data[d,p], n=n, axis=axis)
+                numpy.add(abar.data[d,p, ...], numpy.fft.ifft(bbar.data[d,p], n=n, axis=axis), out=abar.data[d,p, ...], casting="unsafe")
 
         return abar
 
